@@ -25,7 +25,7 @@
 (*     loop variables and parameters are bound in the block's own frame;   *)
 (*   - mixin / function bodies see their definition site (lexical parent), *)
 (*     content blocks see the include site.                                *)
-(* Whether the iterations of @for/@each share one frame is not fixed by    *)
+(* Whether the iterations of @for/@each/@while share one frame is not fixed by *)
 (* the property: both choices are computed and the observable is undef     *)
 (* where they differ.                                                      *)
 (*                                                                         *)
@@ -160,7 +160,7 @@ FrameMode(kind, s, M) ==
          [] kind = "each" -> "none"
          [] kind = "for" -> IF s.fn = 1 THEN "none" ELSE "iter"
          [] kind = "while" -> "loop"
-  ELSE IF kind \in {"for", "each"} THEN M.iter ELSE "loop"
+  ELSE IF kind \in {"for", "each", "while"} THEN M.iter ELSE "loop"
 
 RECURSIVE RunSeq(_, _, _, _, _), Iterate(_, _, _, _, _, _, _, _), Block(_, _, _, _, _)
 
